@@ -50,6 +50,15 @@ func verifRoot() string {
 	return "/verif"
 }
 
+// outRoot is where evidence and replay files go (VERIF_OUT overrides it so
+// that runs against scratch copies do not overwrite the real evidence).
+func outRoot() string {
+	if d := os.Getenv("VERIF_OUT"); d != "" {
+		return d
+	}
+	return verifRoot()
+}
+
 func envSeed() uint64 {
 	if s := os.Getenv("VERIF_SEED"); s != "" {
 		if v, err := strconv.ParseUint(s, 10, 64); err == nil {
@@ -257,7 +266,7 @@ type replayFile struct {
 }
 
 func writeReplay(v *violation, orig *Scenario, minimised bool, log []string, seed uint64, n int) string {
-	dir := filepath.Join(verifRoot(), "replays")
+	dir := filepath.Join(outRoot(), "replays")
 	os.MkdirAll(dir, 0o755)
 	path := filepath.Join(dir, fmt.Sprintf("%s-%d-%d.json", v.Prop, seed, n))
 	rf := replayFile{Property: v.Prop, Class: v.Class, Message: v.Msg, Signature: v.Sig, Scenario: v.Sc, Reference: v.Ref,
@@ -285,7 +294,7 @@ type evidence struct {
 }
 
 func writeEvidence(ev *evidence) error {
-	dir := filepath.Join(verifRoot(), "evidence")
+	dir := filepath.Join(outRoot(), "evidence")
 	os.MkdirAll(dir, 0o755)
 	b, err := json.MarshalIndent(ev, "", " ")
 	if err != nil {
